@@ -211,6 +211,8 @@ def check_C18(ctx):
         send.rule_fd_bound(ctx, cfg, F)       # what is written into / expected from the receiver's control buffer stays within its capacity
         mem.rule_uaf_guard(ctx, cfg, F)
         mem.rule_map_guard(ctx, cfg, F)
+        # the fill of a new region writes exactly [0, length): not beyond the mapping, and no tail left as the kernel handed it out
+        ipcl.rule_shm_len(ctx, cfg, F)
         mem.rule_copy_bound(ctx, cfg, F)
         ctx.rule("COPY-BOUND").floor("struct_array_copies[%s]" % cfg, 1, cfg)
         # received data has exactly the sent length: a first packet is taken for the whole message only when the header says so
@@ -370,6 +372,10 @@ def check_C09(ctx):
         ctx.rule("SEND-PROP").floor("fallible_calls[%s]" % cfg, 3, cfg)
         send.rule_peer_closed(ctx, cfg, F)
         ctx.rule("SEND-PEER-CLOSED").floor("followup_sites[%s]" % cfg, 1, cfg)
+        if cfg == "K1":
+            # a receiver handed to the router vanishes when the router is shut down: the router thread really stops (and drops its set), so a later send to a
+            # routed channel fails instead of being accepted and lost
+            router.rules_run(ctx, cfg, F, "C17")
         # a receiving end in transit counts: it must not be taken for the per-message socket of the message that carries it (which happens when that socket is the 65th descriptor)
         send.rule_fd_bound(ctx, cfg, F)
     for cfg, F in ctx.configs(["K1", "K3"]):
@@ -737,6 +743,9 @@ def check_C08(ctx):
         fd.rule_no_forget(ctx, cfg, F)
         fd.rule_cloexec(ctx, cfg, F, model)
     for cfg, F in ctx.configs(["K3"]):
+        # a client can connect, send and leave before accept(): nothing on the in-process connect / send path waits for the server
+        oss.rule_inproc_unbounded(ctx, cfg, F)
+        ctx.rule("INPROC-UNBOUNDED").floor("queue_creations[%s]" % cfg, 2, cfg)
         oss.rule_oss_own(ctx, cfg, F, "inprocess")
         oss.rule_oss_name(ctx, cfg, F, "inprocess")
         fd.rule_no_forget(ctx, cfg, F)
@@ -981,4 +990,7 @@ _also("C14", "Also: the descriptor list of a message is created in the call that
 _also("C16", "Also: printing a received message that has not been decoded (`{:?}` on OpaqueIpcMessage) has no panic source either; a str cut at a byte offset is one (DECODE-NOPANIC).")
 _also("C04", "Also: every iteration of the sender's collection loops pushes its descriptor (SPLIT-ORDER), so descriptors and payload indices stay in one-to-one correspondence.")
 _also("C05", "Also: the name of a named backing object contains something that differs between a process and the children it forks within one second (SHM-NAME), so region creation in both does not collide on O_EXCL.")
+_also("C08", "Also: every queue of the in-process backend is unbounded (INPROC-UNBOUNDED), so a client can connect and send before the server accepts, as on the OS transport.")
+_also("C09", "Also: the router thread stops on Shutdown (STOP-EXIT), so the receivers it held vanish and a later send to a routed channel fails instead of being accepted and lost.")
+_also("C18", "Also: the fill of a new region covers exactly [0, length) (SHM-LEN).")
 
